@@ -121,7 +121,10 @@ def run_all(ctx, focus):
         if "deploy-lag" in d["classes"]:
             slow = ["__deploy__"]
         for sd in range(seeds):
-            jobs.append((d, ctx.seed * 1000 + sd, slow, k))
+            sl = slow
+            if "cross-product" in d["classes"] and sd % 2 == 1:
+                sl = ["a"]       # the first port of the cross product is late: tokens of the second port arrive first
+            jobs.append((d, ctx.seed * 1000 + sd, sl, k))
     # imposed job-completion orders (B-env): every permutation of the jobs of a network (bounded), realised with gates
     import itertools
     for k, d in enumerate(descs):
@@ -197,7 +200,8 @@ def judge(ctx, focus, d, exp, r, tr, v, pb, dead):
                               dict(detail, verdict=v, trace=tr), what)
         else:
             ctx.count("rejections_owned_by_%s" % (prop or "C04"))
-        return
+        if focus != "C05":
+            return      # C05 judges the outputs of the run whatever the conformance verdict
     if focus == "C04":
         if r.get("error") == "HANG":
             ctx.violation("hang:%s" % cls, detail, "executor of %s did not end within the watchdog" % name)
